@@ -54,6 +54,41 @@ CLAIMED["C12"] = (
     "Trusted: TLC; harness description of a decoded event (class name, fields, event data).",
     "DESIGN.md §5 C12")
 
+CLAIMED["C01"] = (
+    "model_checking",
+    "complete decode tables of the real from_frame (16-bit x device types, 24-bit, event frames under maps, "
+    "other lengths) and a purity history judged by TLC (CmdJudge, MODE=c01) for totality, bit identity, "
+    "renderability and functional consistency",
+    "Quick: all 2^16 16-bit frames x 13 device types, all 2^16 upper halves of 24-bit frames x every opcode byte any "
+    "table names (+ seeded others), event headers under maps, 62 other lengths; thorough: all 256 device types and "
+    "all 2^24 24-bit frames. The judged clauses are exactly those of the statement; which class a frame decodes to is "
+    "C03's clause.",
+    "Trusted: TLC; the harness's comparison of the decoded object's frame with the input (as_integer/len); "
+    "str() text itself is not judged.",
+    "DESIGN.md §5 C01")
+CLAIMED["C02"] = (
+    "model_checking",
+    "argument spaces and legality from the TLA+ tables (CmdCodec/StdTables/Events103); every tuple constructed on "
+    "the real classes, decoded again and compared; TLC judges legal => constructed and round-trips, "
+    "illegal => rejected (CmdJudge, MODE=c02)",
+    "All 329 command/event classes x all destinations x parameter lists incl. one-step illegal excursions; instance "
+    "commands x (8 destinations x 196 instance bytes + 98 destinations x 6) in quick, the full product in thorough; "
+    "two-byte specials sampled (quick) / all 65536 (thorough).",
+    "Trusted: TLC; equality of decoded and original objects is observed through the library's own == / attributes / "
+    "str(); the argument space description is mine (from the standard).",
+    "DESIGN.md §5 C02")
+CLAIMED["C03"] = (
+    "model_checking",
+    "command tables of IEC 62386 transcribed into TLA+ (StdTables) with an independent encoder/decoder (CmdCodec); "
+    "frames emitted by the real constructors, class names of the real decode sweep and the class flags judged by "
+    "TLC (CmdJudge, MODE=c03)",
+    "Every implemented command x destinations x parameters compared bit-for-bit with the specification's encoder; "
+    "every frame the tables name (16-bit x device type sweep, 24-bit sweep) must decode to the class of that name; "
+    "sendtwice / expects answer / yes-no vs value / device type per class.",
+    "Trusted: TLC and my transcription of the standard's tables (rows marked doc could only be confirmed against the "
+    "library's prose and act as pins).",
+    "DESIGN.md §5 C03")
+
 NOT_YET = {}
 
 
